@@ -1,10 +1,30 @@
 import CwPlus.Lemmas.Ics20
 import CwPlus.Lemmas.Ics20Migrate
+import CwPlus.Lemmas.Ics20Env
 /-!
 # C11 — cw20-ics20: escrow always covers outstanding vouchers, channel by channel
 
 Histories as in C12 (`runG` with ghosts, `run` without): transfers, incoming packets with arbitrary
 fields, acknowledgements / timeouts, governance, migrations; every payout / refund sub-call may fail.
+
+## Environment assumptions (`structure EnvAssumptions`, Lemmas/Ics20Env.lean)
+
+* **E1 `hook_only_from_send`** — a real cw20 token contract calls `ExecuteMsg::Receive` only from its own
+  `Send`, after crediting the contract; a direct `Receive` never has a real token as sender.
+* **E2 `never_calls_itself`** — the ics20 contract is never the sender of a transfer (it emits no
+  message to itself).
+* **E3 `native_not_cw20`** — no native denomination has the form `cw20:…` (so the string storage key
+  of a native coin never collides with that of a cw20 token; the model keys the books structurally).
+
+The model's `World.exec` refuses transactions violating E1 / E2 (tags `impossible.token`,
+`impossible.self`), so theorems over `run` / `runG` speak about such histories only as no-ops.  The
+`…_explicit_env` theorems below restate the headline results over the *unguarded* semantics `runRaw` /
+`runGRaw` (same handlers and runtime, no such checks) with `EnvAssumptions` as an explicit hypothesis;
+`solvency_needs_hook_only_from_send` and `solvency_needs_never_calls_itself` show that solvency really
+fails without E1 resp. E2.  E3 is used by C12 `storage_keys_faithful`; solvency is stated per
+structural denomination (a bank denomination or a cw20 contract), which is what the holdings are.
+Further standing assumptions of the model (IBC core delivers at most one acknowledgement / timeout per
+sent packet — `admissible`; runtime dispatch semantics) are listed in `props/C11.json`.
 -/
 namespace CwPlus.Props.C11
 open CwPlus CwPlus.Ics20
@@ -508,6 +528,30 @@ theorem second_migrate_keeps_books {s s' s'' : State} {g g' : Option Nat} {hold 
     (h1 : migrate s g hold = .ok s') (h2 : migrate s' g' hold' = .ok s'') : s''.chan = s'.chan :=
   (migrate_postV3 (migrate_result_postV3 h1) h2).1
 
+/-! ## The same results with the environment assumptions as explicit hypotheses -/
+
+/-- **C11, solvency_explicit_env**: under the *unguarded* transaction semantics (any account, including
+the contract itself and real token contracts, may send any transaction), on every history that satisfies
+the environment assumptions E1–E3 (`EnvAssumptions`: a real token calls the receive hook only from `Send`;
+the contract never calls itself; no native denomination starts with `cw20:`), from any solvent,
+well-formed start state and with `migrate` anywhere: holdings ≥ Σ over channels of outstanding, for
+every denomination. -/
+theorem solvency_explicit_env (w : World) (ops : List (Block × Op))
+    (henv : EnvAssumptions w.self w.tokens ops) (hs : Solvent w) (hwf : WellFormed w.st) :
+    Solvent (runRaw w ops) := by
+  rw [runRaw_eq_run w ops henv]
+  exact (solvency_with_migration w ops hs hwf).1
+
+/-- **C11, channel_ledger / paidOut ≤ escrowed with explicit environment**: the ledger identity and the
+payout bound on the unguarded semantics, for histories satisfying `EnvAssumptions`. -/
+theorem paidOut_le_escrowed_explicit_env (w : World) (ops : List (Block × Op))
+    (henv : EnvAssumptions w.self w.tokens ops) (c : String) (d : Denom) :
+    outstanding (runGRaw (w, Ghost.init w) ops).1.st c d + (runGRaw (w, Ghost.init w) ops).2.paidOut (c, d)
+      + (runGRaw (w, Ghost.init w) ops).2.swallowed (c, d) = (runGRaw (w, Ghost.init w) ops).2.sent (c, d) ∧
+    (runGRaw (w, Ghost.init w) ops).2.paidOut (c, d) ≤ (runGRaw (w, Ghost.init w) ops).2.sent (c, d) := by
+  rw [runGRaw_eq_runG (w, Ghost.init w) ops henv]
+  exact ⟨channel_ledger w ops c d, paidOut_le_escrowed w ops c d⟩
+
 /-- **C11, bad_packets_release_nothing**: a packet whose data does not decode, whose denomination
 lacks the `port/channel/` prefix, names another port or another channel than the packet's source, or
 asks for more than the channel's outstanding balance of that denomination (in particular any
@@ -562,6 +606,41 @@ example : sumDenom (run w0 hist).st.chan (.native "uatom") = 45 := by decide
 example : (runG (w0, Ghost.init w0) hist).2.paidOut ("channel-0", .native "uatom") = 45 := by decide
 example : (runG (w0, Ghost.init w0) hist).2.sent ("channel-0", .native "uatom") = 60 := by decide
 
+
+/-! ## The environment assumptions E1 and E2 are needed for solvency -/
+
+/-- **E1 is needed**: under the unguarded semantics, a token contract that exists (`T1`) calling `Receive`
+directly — claiming 50 tokens it never credited — is accepted, and the contract is insolvent afterwards:
+it reports 50 `T1` outstanding and holds none. -/
+theorem solvency_needs_hook_only_from_send :
+    Solvent w0 ∧
+    sumDenom (w0.stepRaw b0 (.hook "T1" [] ⟨true, "mallory"⟩ 50 (some ⟨"channel-0", "bob", none, none⟩))).st.chan (.cw20 "T1") = 50 ∧
+    (w0.stepRaw b0 (.hook "T1" [] ⟨true, "mallory"⟩ 50 (some ⟨"channel-0", "bob", none, none⟩))).holdings (.cw20 "T1") = some 0 ∧
+    (w0.step b0 (.hook "T1" [] ⟨true, "mallory"⟩ 50 (some ⟨"channel-0", "bob", none, none⟩))).st.chan = [] := by
+  refine ⟨by intro d h _; simp [w0, sumDenom], by decide, by decide, by decide⟩
+
+/-- **E2 is needed**: under the unguarded semantics, after alice escrowed 60 uatom, a transfer of 60 uatom
+*sent by the contract itself* moves nothing (self → self) but books another 60: 120 outstanding, 60 held. -/
+theorem solvency_needs_never_calls_itself :
+    sumDenom ((w0.stepRaw b0 (.transferNative "alice" [("uatom", 60)] ⟨"channel-0", "bob", none, none⟩)).stepRaw b0
+      (.transferNative "ics20" [("uatom", 60)] ⟨"channel-0", "bob", none, none⟩)).st.chan (.native "uatom") = 120 ∧
+    ((w0.stepRaw b0 (.transferNative "alice" [("uatom", 60)] ⟨"channel-0", "bob", none, none⟩)).stepRaw b0
+      (.transferNative "ics20" [("uatom", 60)] ⟨"channel-0", "bob", none, none⟩)).holdings (.native "uatom") = some 60 := by
+  decide
+
+/-- The environment assumptions hold of the demo history (nobody but alice sends; no direct hook call;
+`uatom` does not start with `cw20:`), so `solvency_explicit_env` applies to it. -/
+example : EnvAssumptions w0.self w0.tokens hist := by
+  refine ⟨?_, ⟨?_, ?_⟩, ?_⟩
+  · intro blk snd funds sender amt msg hm; simp [hist] at hm
+  · intro blk snd funds msg hm
+    simp [hist] at hm
+    rcases hm with ⟨_, rfl, _⟩ | ⟨_, rfl, _⟩ <;> decide
+  · intro blk snd token amt msg hm; simp [hist] at hm
+  · intro blk snd funds msg hm f hf
+    simp [hist] at hm
+    rcases hm with ⟨_, _, rfl, _⟩ | ⟨_, _, rfl, _⟩ <;> (simp at hf; subst hf; exact nativeOk_of_take (by decide))
+example : runRaw w0 hist = run w0 hist := rfl
 
 /-! ## Non-vacuity: legacy start states and histories with migrations -/
 
